@@ -65,6 +65,8 @@ pub struct Stats {
     pub samples: Vec<J>,
     pub nondeterministic: usize,
     pub events_seen: BTreeMap<String, usize>,
+    /// cases not run because the run had already confirmed FLOOD_LIMIT violations (only ever next to violations)
+    pub left_out_after_flood: usize,
 }
 
 impl Stats {
@@ -98,6 +100,7 @@ impl Stats {
         for (k, v) in o.events_seen {
             *self.events_seen.entry(k).or_insert(0) += v;
         }
+        self.left_out_after_flood += o.left_out_after_flood;
     }
 }
 
@@ -376,10 +379,23 @@ where
             }
         }
     }
+    // A change that breaks thousands of cases, each of them slowly (runs that only end when their instruction
+    // budget does, each confirmed twice in isolation), must not keep the check from reaching its verdict: once
+    // FLOOD_LIMIT violations are confirmed the remaining cases are left out, and the evidence says how many
+    // (exhaustive: false - only ever next to violations).
+    const FLOOD_LIMIT: usize = 400;
+    let confirmed = std::sync::atomic::AtomicUsize::new(0);
     let parts = par_map(runner_path, ctx.workers, Batcher { it: cases, n: 24 }, |runner, i, batch| {
+        if confirmed.load(std::sync::atomic::Ordering::Relaxed) >= FLOOD_LIMIT {
+            let mut st = Stats::default();
+            st.left_out_after_flood = batch.len();
+            return st;
+        }
         runner.timeout = std::time::Duration::from_secs(30);
         runner.recycle_after = 400;
-        judge_batch(runner, hooks, batch, i < 3)
+        let st = judge_batch(runner, hooks, batch, i < 3);
+        confirmed.fetch_add(st.violations.len(), std::sync::atomic::Ordering::Relaxed);
+        st
     });
     let mut total = Stats::default();
     for p in parts {
@@ -400,7 +416,10 @@ pub fn fill_report(report: &mut Report, stats: &Stats, rule: &str, bounds: J) {
     report.cov("traces_validated_against_impl", json!(stats.distinct.len() - 0));
     report.cov("rule", json!(rule));
     report.cov("bounds", bounds);
-    report.cov("exhaustive", json!(true));
+    report.cov("exhaustive", json!(stats.left_out_after_flood == 0));
+    if stats.left_out_after_flood > 0 {
+        report.cov("cases_left_out_after_400_confirmed_violations", json!(stats.left_out_after_flood));
+    }
     report.cov("by_family", json!(stats.by_family));
     report.cov("distinct_model_outcomes", json!(stats.outcome_signatures.len()));
     report.cov("model_ok", json!(stats.model_ok));
